@@ -19,6 +19,8 @@ pub struct HtmlFilterBodyAction {
     visitor: HtmlBodyVisitor,
     current_buffer: Option<Box<BufferLink>>,
     last_buffer: Vec<u8>,
+    // Raw text element (script, style, ...) whose content last_buffer starts with
+    last_buffer_raw_tag: String,
 }
 
 lazy_static! {
@@ -74,6 +76,7 @@ impl HtmlFilterBodyAction {
             enter: Some(visitor.first()),
             leave: None,
             last_buffer: Vec::new(),
+            last_buffer_raw_tag: String::new(),
             current_buffer: None,
             visitor,
         }
@@ -87,16 +90,21 @@ impl HtmlFilterBodyAction {
         // sequence for the next call instead of failing to decode the last token
         let incomplete_char = data.split_off(complete_utf8_len(&data));
 
-        let mut tokenizer = html::Tokenizer::new(data);
+        // The content of a script, style, ... element is not markup: when the previous chunk ended
+        // inside such an element, what has been kept of it must be read as raw text again
+        let mut tokenizer = html::Tokenizer::new_fragment(data, std::mem::take(&mut self.last_buffer_raw_tag));
         let mut to_return = "".to_string();
 
         loop {
+            let mut raw_tag = tokenizer.raw_tag().to_string();
             let mut token_type = tokenizer.next()?;
 
-            if token_type == html::TokenType::ErrorToken {
+            // Also wait for the rest of a raw text which reaches the end of the chunk: its end tag is not known yet
+            if token_type == html::TokenType::ErrorToken || (!raw_tag.is_empty() && tokenizer.err().is_some()) {
                 self.last_buffer = tokenizer.raw();
                 self.last_buffer.extend(tokenizer.buffered());
                 self.last_buffer.extend(incomplete_char);
+                self.last_buffer_raw_tag = raw_tag;
 
                 break;
             }
@@ -111,6 +119,7 @@ impl HtmlFilterBodyAction {
                     self.last_buffer.extend(tokenizer.raw());
                     self.last_buffer.extend(tokenizer.buffered());
                     self.last_buffer.extend(incomplete_char);
+                    self.last_buffer_raw_tag = raw_tag;
 
                     return Ok(to_return.into_bytes());
                 }
@@ -122,6 +131,7 @@ impl HtmlFilterBodyAction {
                 }
 
                 token_data = tokenizer.raw_as_string()?;
+                raw_tag = String::new();
             }
 
             // A comment or doctype which reaches the end of the chunk is not finished yet: wait for
